@@ -1099,6 +1099,56 @@ def several_references(chk, tier):
     chk.extra["several_references_scenarios"] = n
 
 
+def exception_then_retry(chk, tier):
+    """Directed history: a call of the recursive predicate ends in an exception raised by its base on some leaf (the caller
+    catches it), the data is repaired in place, the call is repeated on the same objects: the second answer is the recursive
+    definition's (nothing of the abandoned evaluation may be remembered)."""
+    import predicate as P_
+
+    def base_fn(x):
+        if x is None:
+            raise TypeError("no value")
+        return isinstance(x, int) and not isinstance(x, bool) and x > 0
+
+    def ref(x):
+        if isinstance(x, list):
+            return all(ref(e) for e in x)
+        return base_fn(x)
+
+    def scenario(kind):
+        base = P_.fn_p(base_fn)
+        mk = {"this": lambda: P_.this_p, "root": lambda: P_.root_p, "lazy": lambda: P_.lazy_p("P")}[kind]
+        P = base | P_.is_list_of_p(mk())
+        out = []
+        for data, fix in (([[2], [1, None]], -1), ([[2], [1, None]], 5), ([1, [2, [None]]], 0), ([[None]], 7)):
+            row = data
+            while isinstance(row[-1], list):
+                row = row[-1]
+            try:
+                first = bool(P(data))
+            except TypeError:
+                first = "TypeError"
+            except Exception as e:  # noqa: BLE001
+                first = type(e).__name__
+            row[-1] = fix  # repaired in place: same list objects
+            try:
+                second = bool(P(data))
+            except Exception as e:  # noqa: BLE001
+                second = type(e).__name__
+            out.append((first, second, ref(data)))
+        return out
+
+    n = 0
+    for kind in ("this", "root", "lazy"):
+        for first, second, want in scenario(kind):
+            n += 1
+            if second != want:
+                chk.add_failure({"history": f"P = fn_p(base) | is_list_of_p({kind}_p); P(data) raised {first}; data repaired in place; P(data) again"},
+                                {"what": "after a call that ended in an exception, the repeated call does not answer like the recursive definition", "P(data)": second, "expected": want}, None)
+    chk.evaluations += n
+    chk.extra["exception_then_retry_cases"] = n
+
+
 def main(tier):
     chk = Check("C16", tier)
     chk.prove(checker=(tier == "thorough"), exes=("driver_scope",))
@@ -1260,6 +1310,7 @@ def main(tier):
                 chk.add_failure({"json_values": [repr(x[0]) for x in jvals], "value_index": pos % len(jvals), "callers_in_order": s, "caller": caller, "value": repr(v[0]), "source": json_source(caller, 1)[0]}, {"expected": e, "got": r, "what": "is_json_p depends on the names bound by its caller"}, explained)
     analysis_before_first_call(chk, tier)
     several_references(chk, tier)
+    exception_then_retry(chk, tier)
     chk.add_corr("scope/is_json_p", jn_cases, jdis, note=f"{len(seqs)} caller sequences x {len(jvals)} values")
     chk.evaluations += jn_cases
     # -- thorough: one canonical configuration per flavour on ALL nested lists of depth <= 3 / width <= 2
@@ -1314,6 +1365,7 @@ def replay(path):
         chk = Check("C16", "replay")
         analysis_before_first_call(chk, "quick")
         several_references(chk, "quick")
+        exception_then_retry(chk, "quick")
         hit = [f for f in chk.failures if f["input"] == inp]
         print(json.dumps(hit[0] if hit else {"the recorded history": "does not fail on this tree"}, indent=1, default=str)[:1500])
         return 1 if hit else 0
